@@ -40,6 +40,8 @@ def jobs(tier, seed):
         "row": [F([O(2, [(1, [])])], bg=1)],
         "wip": [F([S(3, tags=["wip"])])],
         "rule-row": [F([R([O(1, [(1, [])])], bg=1)], bg=1)],
+        "rule-row-param-bg": [F([R([O(1, [(2, [])]), S(1)], bg=1, bgp=True)], bg=1)],
+        "row-param-feature-bg": [F([O(1, [(2, [])])], bg=1, bgp=True)],
     }
     if tier == "thorough":
         shapes.update({
@@ -49,8 +51,9 @@ def jobs(tier, seed):
             "wip-rule": [F([R([S(3)], tags=["wip"], bg=1)])],
         })
     for name, sh in shapes.items():
+        opts = {"dry_run": "sym"} if "param" not in name else {"out_dom": {"*": [0, 2]}}
         js.append(Job("seq.%s" % name, "vlib.stage1:h_stage1",
-                      {"shapes": sh, "opts": {"dry_run": "sym"}, "checks": base},
+                      {"shapes": sh, "opts": opts, "checks": base},
                       reach=REACH, min_paths=20, cost=100, validate=150 if tier == "quick" else 3000))
     js.append(Job("converr", "vlib.stage1:h_stage1",
                   {"shapes": [F([S(2)], bg=1)], "opts": {"dry_run": "sym", "converr": True, "out_dom": {"*": [0, 3]}},
